@@ -674,3 +674,22 @@ Section FullBytes.
     - rewrite app_nil_r. apply lex_print. exact Hw.
   Qed.
 End FullBytes.
+
+(* ================================================================ the oracle laws from the decoder family's oracle models *)
+From J5V.proofs Require CodecDecTime CodecDecTimeFast CodecDecDecimal.
+
+(* time.Parse: that family models Go's general layout parser (go_time_parse, compared with the real
+   function on every run) and proves that it extends the RFC 3339 fast path *)
+Lemma orc_time_from_model orc : J5V.proofs.CodecDecTime.time_oracle_is_model orc -> orc_time_ok orc.
+Proof. intros H s r Hp. apply (J5V.proofs.CodecDecTimeFast.oracle_extends_fast_path orc H s r Hp). Qed.
+
+(* decimal.NewFromString: the oracle is lib/Decimal (compared with shopspring on every run) *)
+Lemma orc_decimal_from_model orc : J5V.proofs.CodecDecDecimal.decimal_oracle_is_model orc -> orc_decimal_ok orc.
+Proof.
+  intros H s d Hd. unfold dec_normalise in Hd. specialize (H s).
+  destruct (dec_parse s) as [[m e]|]; [|discriminate].
+  unfold Decimal.max_decimal_exponent in Hd.
+  destruct ((e <=? 1000)%Z && (- (1000) <=? e)%Z) eqn:E; [|discriminate]. injection Hd as <-.
+  destruct H as (d & Ho & Hd). exists e. unfold DS.max_decimal_exponent in Hd.
+  rewrite Hd in Ho by lia. split; [exact Ho|lia].
+Qed.
